@@ -2,7 +2,7 @@ import Nsq.Gen.MetaFacts
 import Nsq.Model.Meta
 /-!
 Tie (regenerated facts) for C06: the order of effects that the micro-step machine `Nsq.Model.Meta`
-assumes, re-extracted from the current tree on every run by `tools/go2lean` (kind `seq`: tracked
+assumes, re-extracted from the current tree on every run by `tools/go2lean` (kind `effseq`: tracked
 calls and matching assignments of one function body in source order). Any edit that reorders,
 drops or adds one of these effects makes a theorem below fail (the tie is then reported broken).
 -/
